@@ -15,6 +15,7 @@ Coerce(v) ==
     [] v.k = "t" -> LET p == ParseNumber(v.s)
                     IN IF p = NotNumeric THEN Err("VALUE") ELSE p
     [] v.k = "e" -> v
+    [] OTHER -> Err("VALUE")      \* (observations that are not Excel values)
 
 FromRanged(r) == IF r = Overflow THEN Err("NUM") ELSE r
 
@@ -124,7 +125,7 @@ Un(op, a) ==
 -----------------------------------------------------------------------------
 (* The pool of operand values of property C02 and the theorems TLC checks   *)
 (* over its complete cross product.                                          *)
-S(str) == str   \* (documentation only)
+
 
 Pool == <<
   IntV(0), IntV(1), IntV(-1), IntV(2), Num(1, 2), Num(1, 4), Num(3, 2), Num(-5, 2),
